@@ -350,6 +350,9 @@ def reads_as(cur):
 
 
 REREADABLE = sorted(c for c in CUR if reads_as(c) == c)          # dkk eur mvr tjs try usd
+# pinned (not recomputed from config.json): a currency alias / symbol edited in the data must not move one of these
+# into a known class
+PINNED_REREADABLE = {"dkk", "eur", "mvr", "tjs", "try", "usd"}
 
 
 def hex_collides(text):
@@ -400,6 +403,8 @@ def class_of(c, rec):
         return "C15-negative-zero"
     if ty == "Money":
         cur = it["cur"].lower()
+        if cur in PINNED_REREADABLE:
+            return None            # these six re-read as themselves on the unchanged tree: a failure is a violation
         r = reads_as(cur) if cur in CUR else cur
         if r is None:
             return "C15-money-symbol-not-a-reader-name"
